@@ -7,7 +7,7 @@
 From Coq Require Import List ZArith NArith Bool.
 Import ListNotations.
 Require Import UPV.Core.Expr UPV.Core.Eval UPV.Core.Interp UPV.Planning.Problem UPV.Planning.Sem.
-Require Import UPV.Model.Belief UPV.Proofs.Belief_proofs.
+Require Import UPV.Proofs.Step_proofs UPV.Model.Belief UPV.Proofs.Belief_proofs.
 
 (* a plan passes the conformance check iff, from EVERY possible initial state, it is executable and ends in a goal
    state (valid_plan of the shared planning semantics, strict reading) *)
@@ -69,14 +69,24 @@ Theorem C30_relevance_ok :
 Proof. exact relevance_ok. Qed.
 Print Assumptions C30_relevance_ok.
 
-(* basis reduction: for the model of _reduce_possible_initial_states_to_basis, a plan is conformant for the kept
-   states iff it is conformant for all possible initial states — so dropping dominated states changes neither
-   "this (mapped-back) plan is conformant" nor "a conformant plan exists" *)
+(* the literal-level semantics used for the prepared (ground, DNF-normalised) problem IS the shared planning semantics
+   of its rendering as a [problem]: literals as preconditions, effects "fluent := constant if conjunction of literals" *)
+Theorem C30_prepared_semantics :
+  forall NP, nwf NP = true -> forall pi s t,
+    state_eq t (embed_state s) -> valid_plan false (embed NP) t (embed_plan pi) = nvalid NP s pi.
+Proof. exact embed_valid. Qed.
+Print Assumptions C30_prepared_semantics.
+
+(* basis reduction: for the model of _reduce_possible_initial_states_to_basis (with the relation computed by the model
+   of _get_relevance_relation), a plan is conformant for the kept states iff it is conformant for ALL possible initial
+   states, in the shared semantics [spec_step false] — so dropping dominated states changes neither "this (mapped-back)
+   plan is conformant" nor "a conformant plan exists" *)
 Theorem C30_basis_reduction_sound :
   forall NP fuel R S0,
     nwf NP = true -> relevance NP fuel = Some R ->
-    forall pi, nconformant NP (reduce_to_basis NP R S0) pi = nconformant NP S0 pi.
-Proof. exact basis_reduction_sound_lemma. Qed.
+    forall pi, conformant_check (embed NP) (map embed_state (reduce_to_basis NP R S0)) (embed_plan pi)
+               = conformant_check (embed NP) (map embed_state S0) (embed_plan pi).
+Proof. exact basis_reduction_sound. Qed.
 Print Assumptions C30_basis_reduction_sound.
 
 Theorem C30_basis_reduction_same_answer :
@@ -127,5 +137,16 @@ Definition ex_NP : nprob :=
 Example C30_basis_reduction_sound_nonvacuous :
   nwf ex_NP = true /\
   exists R, relevance ex_NP 17 = Some R /\
-            basis_indices ex_NP R (map ns_of [[0%N; 1%N]; [0%N]; []]) = [2].
-Proof. split; [vm_compute; reflexivity|]. eexists. split; vm_compute; reflexivity. Qed.
+            basis_indices ex_NP R (map ns_of [[0%N; 1%N]; [0%N]; []]) = [2] /\
+            (* the one-step plan fails from {} — with all three states and with the kept one alone *)
+            conformant_check (embed ex_NP) (map embed_state (map ns_of [[0%N; 1%N]; [0%N]; []])) (embed_plan [0]) = false /\
+            conformant_check (embed ex_NP) (map embed_state (reduce_to_basis ex_NP R (map ns_of [[0%N; 1%N]; [0%N]; []]))) (embed_plan [0]) = false /\
+            (* without {} the kept state is {0}, and the plan is conformant for both sets *)
+            basis_indices ex_NP R (map ns_of [[0%N; 1%N]; [0%N]]) = [1] /\
+            conformant_check (embed ex_NP) (map embed_state (map ns_of [[0%N; 1%N]; [0%N]])) (embed_plan [0]) = true /\
+            conformant_check (embed ex_NP) (map embed_state (reduce_to_basis ex_NP R (map ns_of [[0%N; 1%N]; [0%N]]))) (embed_plan [0]) = true.
+Proof. split; [vm_compute; reflexivity|]. eexists. repeat (split; [vm_compute; reflexivity|]). vm_compute; reflexivity. Qed.
+
+Example C30_prepared_semantics_nonvacuous :
+  nwf ex_NP = true /\ valid_plan false (embed ex_NP) (embed_state (ns_of [0%N])) (embed_plan [0]) = true.
+Proof. split; vm_compute; reflexivity. Qed.
